@@ -197,7 +197,7 @@ class Project(object):
         return os.path.join(self.root, *parts)
 
     def write_app(self, app, version_models, evolutions, nv=None,
-                  init_extra='', pkg=None):
+                  init_extra='', pkg=None, evo_helpers=''):
         """version_models: [models dict at V0, V1, ...];
         evolutions: [(label, [mutation text], deps dict)];
         nv: [number of evolutions visible at version i];
@@ -229,9 +229,10 @@ class Project(object):
             with open(os.path.join(d, 'evolutions', label + '.py'), 'w') as f:
                 f.write(evolution_source(
                     texts, deps,
-                    helpers=OWN_FIELDS_IMPORT % (pkg or app)
-                    if any(k in t for t in texts for k in S.CUSTOM_KINDS)
-                    else ''))
+                    helpers=(OWN_FIELDS_IMPORT % (pkg or app)
+                             if any(k in t for t in texts
+                                    for k in S.CUSTOM_KINDS) else '') +
+                    evo_helpers))
         if (pkg or app) not in self.apps:
             self.apps.append(pkg or app)
 
